@@ -5,7 +5,9 @@
 From Coq Require Import List Arith Bool Relations.
 From PV Require Import Typegraph.Graph Typegraph.Solver Typegraph.Spec Typegraph.SetLemmas
   Typegraph.RfgProofs Typegraph.PathProofs Typegraph.SearchProofs Typegraph.SolverProofs
-  Typegraph.ResolveMono Typegraph.ExactProofs Typegraph.WalkProofs Typegraph.FuelProofs.
+  Typegraph.ResolveMono Typegraph.ExactProofs Typegraph.WalkProofs Typegraph.FuelProofs
+  Typegraph.SolverReach.
+From PV Require Typegraph.Reach.
 Import ListNotations.
 
 (* ---- building blocks ---------------------------------------------------------------------- *)
@@ -256,3 +258,58 @@ Proof. vm_compute. split; reflexivity. Qed.
 (* the refutation witness is cyclic and conditional, as the partial theorem demands *)
 Example refute_iii_class : acyclicb refute_iii = false /\ no_conditions refute_iii = false.
 Proof. vm_compute. split; reflexivity. Qed.
+
+(* ---- CanHaveCombination: the abstraction "graph reachability" is the C09 bit matrix -------------- *)
+(* CFGNode::CanHaveCombination asks reachable.cc's bit matrix (backward_reachability_->is_reachable(
+   this->id(), origin->where->id()), which is Reach.is_reachable (Reach.run h) where this).  The C07
+   model computes backward reachability over the incoming lists instead (Solver.back_reach, used by
+   Solver.can_have_combination).  For every solver graph whose incoming lists were built by a history h
+   of NewCFGNode/ConnectTo operations (any conditions, any bindings), the two agree - by C09's theorem
+   that the bit matrix is the reflexive-transitive closure of the inserted edges.  So the
+   "modelled as graph reachability" item of the level note is proved, not assumed. *)
+Theorem can_have_combination_uses_bit_matrix : forall g h,
+  Reach.wf_hist h = true -> built_by g h ->
+  forall attrs this, this < n_nodes g ->
+  (forall b o, In b attrs -> In o (origins g b) -> o_where o < n_nodes g) ->
+  can_have_combination g attrs this =
+  forallb (fun b => existsb (fun o => Reach.is_reachable (Reach.run h) (o_where o) this) (origins g b)) attrs.
+Proof. exact can_have_combination_bit_matrix_lemma. Qed.
+Print Assumptions can_have_combination_uses_bit_matrix.
+
+Theorem back_reach_is_the_bit_matrix : forall g h,
+  Reach.wf_hist h = true -> built_by g h ->
+  forall this where_, this < n_nodes g -> where_ < n_nodes g ->
+  smem where_ (back_reach g this) = Reach.is_reachable (Reach.run h) where_ this.
+Proof. exact back_reach_is_bit_matrix. Qed.
+Print Assumptions back_reach_is_the_bit_matrix.
+
+(* non-vacuity: the diamond is built by a history (with a self edge and a duplicate edge thrown in) *)
+Definition diamond_hist : list Reach.op :=
+  [Reach.NewNode; Reach.NewNode; Reach.NewNode; Reach.NewNode; Reach.Connect 0 1; Reach.Connect 0 2;
+   Reach.Connect 1 3; Reach.Connect 2 2; Reach.Connect 2 3; Reach.Connect 0 1].
+Example diamond_built : Reach.wf_hist diamond_hist = true /\ built_by diamond diamond_hist /\
+  can_have_combination diamond [0; 1] 3 = true /\ can_have_combination diamond [1] 2 = false.
+Proof. vm_compute. repeat split; reflexivity. Qed.
+
+(* ---- clause (iv) on acyclic graphs WITH conditions: refuted --------------------------------------- *)
+(* The case left open above (accepted_subset_closed_partial covers acyclic condition-free graphs,
+   accepted_subset_closed_refuted cyclic ones): on an acyclic graph with one node condition a fresh
+   solver - and equally a solver that answered the superset first - accepts {0,2,4} and rejects {0,2}.
+   Found by a directed search built on the false-articulation-point defect (clause ii): the pending
+   goal set decides the blocked set, the blocked set decides the shortest path, and the shortest path
+   decides which conditional node FindNodeBackwards (wrongly) takes for an articulation point.
+   Reproduces on cfg.so (corpus/C07/iv_subset_rejected_acyclic_cond.json, proposed known finding
+   iv:subset-rejected:acyclic+cond).  With this, clause (iv) is settled on every graph class: proved
+   on acyclic condition-free graphs, refuted as soon as the graph has a cycle or a condition. *)
+Theorem accepted_subset_closed_acyclic_cond_refuted :
+  exists g fuel n S S', wf_graph g = true /\ acyclic g /\ incl S' S /\
+    solve_fresh fuel g S n = Some true /\ solve_fresh fuel g S' n = Some false /\
+    option_map snd (run_queries fuel g sstate_empty [(S, n); (S', n)]) = Some [true; false].
+Proof. exact subset_closed_acyclic_cond_refuted_lemma. Qed.
+Print Assumptions accepted_subset_closed_acyclic_cond_refuted.
+
+Example refute_iv_acyc_class :
+  acyclicb refute_iv_acyc = true /\ no_conditions refute_iv_acyc = false /\
+  option_map snd (run_queries 100 refute_iv_acyc sstate_empty [([0], 10); ([2], 10); ([4], 10)])
+  = Some [true; true; true].
+Proof. vm_compute. repeat split; reflexivity. Qed.
